@@ -25,10 +25,18 @@ func validatePerBlockReward(r interface{}) error {
 	if len(reward) == 0 {
 		return fmt.Errorf("invalid per block reward: %v", reward)
 	}
+	seen := make(map[string]struct{}, len(reward))
 	for _, rr := range reward {
 		if len(rr.Denom) == 0 {
 			return fmt.Errorf("denom of per block reward can not be empty")
 		}
+		if err := sdk.ValidateDenom(rr.Denom); err != nil {
+			return fmt.Errorf("invalid per block reward: %w", err)
+		}
+		if _, dup := seen[rr.Denom]; dup {
+			return fmt.Errorf("duplicate denom in per block reward: %s", rr.Denom)
+		}
+		seen[rr.Denom] = struct{}{}
 		if rr.IsNegative() {
 			return fmt.Errorf("invalid per block reward: %v", rr)
 		}
